@@ -2,38 +2,11 @@ import SLE.Model.TC
 import SLE.Driver.LiftD
 import SLE.Driver.UnifyD
 import SLE.Driver.PipelineD
+import SLE.Driver.AbiText
 import SLE.Driver.SlotOracle
 /-! Driver for family `tc`: the type-checking pipeline on an explicit list of values. -/
 namespace SLE.Driver.TCD
-open SLE SLE.SV SLE.TC SLE.JsonModel SLE.Driver SLE.Driver.Types
-
-def optText : Option Nat → String
-  | some n => toString n
-  | none => "?"
-
-mutual
-def abiText : AbiType → String
-  | .any => "any"
-  | .number s => s!"(number {optText s})"
-  | .uInt s => s!"(uint {optText s})"
-  | .int s => s!"(int {optText s})"
-  | .address => "address" | .selector => "selector" | .function => "function" | .bool => "bool"
-  | .array size tp => "(array 0x" ++ natHex size ++ " " ++ abiText tp ++ ")"
-  | .bytes l => s!"(bytes {optText l})"
-  | .bits l => s!"(bits {optText l})"
-  | .dynArray tp => "(dynarray " ++ abiText tp ++ ")"
-  | .dynBytes => "dynbytes"
-  | .mapping k v => "(mapping " ++ abiText k ++ " " ++ abiText v ++ ")"
-  | .struct es => "(struct" ++ elemsText es ++ ")"
-  | .infiniteType => "infinite"
-  | .conflictedType _ _ => "conflict"
-def elemsText : List StructElement → String
-  | [] => ""
-  | .mk off t :: r => " (" ++ toString off ++ " " ++ abiText t ++ ")" ++ elemsText r
-end
-
-def layoutText (l : List (Layout.Entry AbiType)) : String :=
-  "[" ++ ";".intercalate (l.map (fun e => "0x" ++ natHex e.index ++ ":" ++ toString e.offset ++ ":" ++ abiText e.typ)) ++ "]"
+open SLE SLE.SV SLE.TC SLE.JsonModel SLE.Driver SLE.Driver.Types SLE.Driver.AbiText
 
 def sortStrings (l : List String) : List String :=
   let rec ins (x : String) : List String → List String
